@@ -101,7 +101,7 @@ func DischargeAll(cfg SolverCfg, jobs []job) {
 }
 
 func dischargeOne(vc *VC, cfg SolverCfg, idx int, o *Obligation) {
-	body := strings.Join(vc.env.order[:o.Prefix], "\n") + "\n(assert (not " + o.Goal.S + "))\n(check-sat)\n"
+	body := "; obligation " + o.Name + "\n" + strings.Join(vc.env.order[:o.Prefix], "\n") + "\n(assert (not " + o.Goal.S + "))\n(check-sat)\n"
 	base := filepath.Join(cfg.Dir, fmt.Sprintf("%s_%d", sanitize(vc.funcName()), idx))
 	write := func(suffix, header string) string {
 		p := base + suffix
